@@ -487,7 +487,10 @@ fn generate_block_data_structure_constructor(
 
 // generate_item_locationinfo_init()
 // generate the initializer for one struct item in the location_info tuple of the new() function
-fn generate_item_locationinfo_init(item_basetype: &BaseType, initline: u32) -> TokenStream {
+pub(crate) fn generate_item_locationinfo_init(
+    item_basetype: &BaseType,
+    initline: u32,
+) -> TokenStream {
     match item_basetype {
         BaseType::Char
         | BaseType::Int
